@@ -1,6 +1,8 @@
 package main
 
 import (
+	"runtime/debug"
+	"runtime/pprof"
 	"sync"
 	"crypto/sha1"
 	"encoding/json"
@@ -53,6 +55,9 @@ func main() {
 		os.Exit(2)
 	}
 	verifDir = env("VERIF_DIR", "/verif")
+	// the interpreter allocates short-lived immutable values at a high rate; the machine has memory to spare
+	debug.SetGCPercent(1000)
+	debug.SetMemoryLimit(24 << 30)
 	switch os.Args[1] {
 	case "check":
 		os.Exit(cmdCheck(os.Args[2:]))
@@ -115,6 +120,7 @@ func cmdRun(args []string) int {
 	dump := fs.String("dump", "", "dump queries to dir")
 	trace := fs.Bool("trace", false, "record scheduler events")
 	dbg := fs.Bool("debugpicks", false, "log pick sites")
+	prof := fs.String("cpuprofile", "", "write cpu profile")
 	fs.Parse(args)
 	e, err := setup(*tier)
 	if err != nil {
@@ -124,6 +130,11 @@ func cmdRun(args []string) int {
 	e.dumpQueries = *dump
 	e.traceEvents = *trace
 	e.debugPicks = *dbg
+	if *prof != "" {
+		f, _ := os.Create(*prof)
+		pprof.StartCPUProfile(f)
+		defer pprof.StopCPUProfile()
+	}
 	sum := e.explore(*harness, ExploreCfg{Workers: *workers, MaxPaths: *maxPaths, Budget: *budget, Timeout: *qt, Solvers: parseSolvers(*solvers)})
 	printSummary(sum)
 	for _, v := range sum.Violations {
